@@ -37,7 +37,7 @@ def main(tier):
     ev["source_histories"] = dict(stacks_ok=sres["stacks_ok"])
 
     # code -> spec on histories this framework did not write: every ArchiveWriter of the repository's own test suite
-    # (unit tests, C binding tests, every `mlar` process of the integration tests), entry hooks H4, TraceWriter
+    # (unit tests, C binding tests, every `mlar` process of the integration tests), entry hooks H5, TraceWriter
     from lib.suitetrace import load_writers, to_trace
     tdir, sinfo = record_suite("c09-suite", ["--workspace"], min_files=20, timeout=2400)
     tp = _os.path.join(workdir("c09-suite-trace"), "writers.ndjson")
